@@ -26,11 +26,36 @@ def v3s : List Float → List (V3 Float)
   | x :: y :: z :: rest => ⟨x, y, z⟩ :: v3s rest
   | _ => []
 
+def xyPairs : List Float → List (Float × Float)
+  | x :: y :: r => (x, y) :: xyPairs r
+  | _ => []
+
+/-- `n` consecutive pieces of length `k`. -/
+def meshChunks (k : Nat) : Nat → List Float → List (List Float)
+  | 0, _ => []
+  | n + 1, xs => xs.take k :: meshChunks k n (xs.drop k)
+
+/-- 12 coordinates (4 vertices) followed by 4 values. -/
+def tetOf (xs : List Float) : Option (Tet Float) :=
+  match v3s (xs.take 12), xs.drop 12 with
+  | [p0, p1, p2, p3], [f0, f1, f2, f3] => some ⟨⟨p0, f0⟩, ⟨p1, f1⟩, ⟨p2, f2⟩, ⟨p3, f3⟩⟩
+  | _, _ => none
+
+/-- `x0 y0 x1 y1 x2 y2 f0 f1 f2`. -/
+def triOf : List Float → Option (Tri Float)
+  | [x0, y0, x1, y1, x2, y2, f0, f1, f2] => some ⟨x0, y0, x1, y1, x2, y2, f0, f1, f2⟩
+  | _ => none
+
+def showOptFloats (l : List (Option Float)) : String :=
+  " ".intercalate (l.map fun o => match o with | some v => floatHex v | none => "nan")
+
 /-- Ops of the C19 slice (all start with `m19`):
 * `m19 g3d (node elem x y z v)*`      → `node:gx,gy,gz …` in the order of `Gradient3D.gradient_of`
 * `m19 lsq (node elem x y z v)*`      → the same for `Gradient.gradient_of` (sorted node ids)
 * `m19 hot <frac> <cap|-> (node elem v)*` → one label per row
-* `m19 bary3 <12 coords> <4 values> (x y z)*` / `m19 bary2 <6 coords> <3 values> (x y)*` → interpolated values (`nan` when a weight is below `-1e-9`: outside; Qhull's own tolerance is external)
+* `m19 bary3 <12 coords> <4 values> (x y z)*` / `m19 bary2 <6 coords> <3 values> (x y)*` → `mapMesh3` / `mapMesh2` on ONE simplex (`nan` outside: a weight below `-1e-9`; Qhull's own tolerance is external)
+* `m19 map3 <n> (<12 coords> <4 values>)ⁿ (x y z)*` / `m19 map2 <n> (<6 coords> <3 values>)ⁿ (x y)*` → `mapMesh3` / `mapMesh2` on a triangulation of `n` simplices
+* `m19 block nx ny nz`                → the rows `node elem …` of `blockRows` with 0-based grid numbers as ids
 * `m19 surf (node elem)*`             → `node:0|1 …` sorted node ids (1 = fewer than 8 elements meet)
 * `m19 inc nx ny nz`                  → `incidentCount` of every grid node, x fastest -/
 def handleMesh : List String → Option String
@@ -42,7 +67,7 @@ def handleMesh : List String → Option String
       | none => s!"{id}:nan"))
   | "m19" :: "lsq" :: rest => do
     let rows ← parseMeshRows 4 rest
-    let out := gradientLsq Nat.toFloat (rows.map toMRow)
+    let out := gradientLsq 1e-12 Nat.toFloat (rows.map toMRow)
     some (" ".intercalate (out.map fun (id, g) => s!"{id}:{showV3 g}"))
   | "m19" :: "hot" :: frac :: cap :: rest => do
     let frac ← parseFloat? frac
@@ -53,27 +78,30 @@ def handleMesh : List String → Option String
   | "m19" :: "bary3" :: rest => do
     let xs ← parseFloats rest
     if xs.length < 16 ∨ (xs.length - 16) % 3 ≠ 0 then none else
-    match v3s (xs.take 12), xs.drop 12 |>.take 4 with
-    | [p0, p1, p2, p3], [f0, f1, f2, f3] =>
-      let pts := v3s (xs.drop 16)
-      some (" ".intercalate (pts.map fun p =>
-        let w := baryWeights3 p0 p1 p2 p3 p
-        if w.1 < -1e-9 ∨ w.2.x < -1e-9 ∨ w.2.y < -1e-9 ∨ w.2.z < -1e-9 then "nan"
-        else floatHex (baryInterp3 p0 p1 p2 p3 f0 f1 f2 f3 p)))
-    | _, _ => none
+    let t ← tetOf (xs.take 16)
+    some (showOptFloats ((v3s (xs.drop 16)).map (mapMesh3 1e-9 [t])))
   | "m19" :: "bary2" :: rest => do
     let xs ← parseFloats rest
     if xs.length < 9 ∨ (xs.length - 9) % 2 ≠ 0 then none else
-    match xs.take 9 with
-    | [x0, y0, x1, y1, x2, y2, f0, f1, f2] =>
-      let rec pts : List Float → List (Float × Float)
-        | x :: y :: r => (x, y) :: pts r
-        | _ => []
-      some (" ".intercalate ((pts (xs.drop 9)).map fun (px, py) =>
-        let w := baryWeights2 x0 y0 x1 y1 x2 y2 px py
-        if w.1 < -1e-9 ∨ w.2.1 < -1e-9 ∨ w.2.2 < -1e-9 then "nan"
-        else floatHex (baryInterp2 x0 y0 x1 y1 x2 y2 f0 f1 f2 px py)))
-    | _ => none
+    let t ← triOf (xs.take 9)
+    some (showOptFloats ((xyPairs (xs.drop 9)).map fun (px, py) => mapMesh2 1e-9 [t] px py))
+  | "m19" :: "map3" :: n :: rest => do
+    let n ← n.toNat?
+    let xs ← parseFloats rest
+    if xs.length < 16 * n ∨ (xs.length - 16 * n) % 3 ≠ 0 then none else
+    let tets ← (meshChunks 16 n xs).mapM tetOf
+    some (showOptFloats ((v3s (xs.drop (16 * n))).map (mapMesh3 1e-9 tets)))
+  | "m19" :: "map2" :: n :: rest => do
+    let n ← n.toNat?
+    let xs ← parseFloats rest
+    if xs.length < 9 * n ∨ (xs.length - 9 * n) % 2 ≠ 0 then none else
+    let tris ← (meshChunks 9 n xs).mapM triOf
+    some (showOptFloats ((xyPairs (xs.drop (9 * n))).map fun (px, py) => mapMesh2 1e-9 tris px py))
+  | ["m19", "block", nx, ny, nz] => do
+    let nx ← nx.toNat?
+    let ny ← ny.toNat?
+    let nz ← nz.toNat?
+    some (" ".intercalate ((blockRows nx ny nz (fun n => (n : Int)) (fun e => (e : Int))).map fun (n, e) => s!"{n} {e}"))
   | "m19" :: "surf" :: rest => do
     let rows ← parseMeshRows 0 rest
     let out := surfaceFlags (rows.map fun (n, e, _) => (n, e))
